@@ -186,14 +186,30 @@ Definition excused (G : list grec) (Bs : list Z) (hi : Z) (a : grec) : bool :=
 Definition Mref : Z := 1073741824000.
 Definition near (T t : Z) : bool := let d := (T - t) mod Mref in (d <=? 125) || (Mref - d <=? 125).
 
+(* An arrival a of a number may be passed over (it is not "the first one still
+   within the history") at position hi when it has left the history by then
+   (excused), or when it was a duplicate on arrival: an earlier arrival of the
+   same number was still in the history when a came, so Record ignored a
+   ("we are only interested in the first time a packet is received").
+   [earlier] = the arrivals of the same number before a, oldest first. *)
+Fixpoint all_skippable (G : list grec) (Bs : list Z) (hi : Z) (earlier arrs : list grec) : bool :=
+  match arrs with
+  | [] => true
+  | a :: tl =>
+      if (if excused G Bs hi a then true
+          else existsb (fun h => negb (excused G Bs (g_i a) h)) earlier)
+      then all_skippable G Bs hi (earlier ++ [a]) tl
+      else false
+  end.
+
 (* T is the time of the first arrival of its number still in the history:
-   some arrival matches and every earlier arrival of the number had left the
-   history by the time the matching one was recorded *)
+   some arrival matches and every earlier arrival of the number can be passed
+   over at the time the matching one was recorded *)
 Fixpoint match_first (G : list grec) (Bs : list Z) (earlier cands : list grec) (T : Z) : bool :=
   match cands with
   | [] => false
   | a :: tl =>
-      if (if near T (g_t a) then forallb (excused G Bs (g_i a)) earlier else false) then true
+      if (if near T (g_t a) then all_skippable G Bs (g_i a) [] earlier else false) then true
       else match_first G Bs (earlier ++ [a]) tl T
   end.
 
@@ -205,7 +221,7 @@ Definition sem_code (G : list grec) (Bs : list Z) (pos UB : Z) (p : pkt) (recv :
   else if negb (forallb (fun e => match_first G Bs [] (arrivals_of G (fst e)) (snd e)) recv) then 7%nat
   else if negb (forallb (fun r =>
             if UB <=? g_u r then if g_u r <? UB + p_count p then
-              if existsb (fun e => fst e =? g_u r) recv then true else excused G Bs pos r
+              if existsb (fun e => fst e =? g_u r) recv then true else all_skippable G Bs pos [] (arrivals_of G (g_u r))
             else true else true) G) then 8%nat
   else 0%nat.
 
